@@ -590,6 +590,54 @@ Proof.
 Qed.
 
 (* ================================================================================================ *)
+(* the known class C16-metadata-line-feed: a line feed inside a text the format writes on a line of its own.
+   The exporters copy title/author/description/colour names verbatim, so such a text becomes several lines of the
+   file and the loader may read colours out of them. *)
+
+Definition nl_free (s : str) : bool := forallb (fun c => negb (c =? 10)) s.
+Definition meta_nl_free (f : format) (p : palette) : bool :=
+  match f with
+  | Hex | Pal => true
+  | Gpl | Txt => nl_free (ptitle p) && nl_free (pauthor p) && nl_free (pdescription p)
+  | Ice => nl_free (ptitle p) && nl_free (pauthor p) && nl_free (pdescription p)
+           && forallb (fun c => match cname c with Some n => nl_free n | None => true end) (pcolors p)
+  end.
+Definition KnownC16_1 (f : format) (p : palette) : Prop := meta_nl_free f p = false.
+
+Lemma names_ok_b p :
+  forallb (fun c => match cname c with Some n => nl_free n | None => true end) (pcolors p) = true -> names_ok p.
+Proof.
+  intro H. apply Forall_forall. intros c Hc. rewrite forallb_forall in H. specialize (H c Hc).
+  destruct (cname c); [apply no_nl_forallb, H|exact I].
+Qed.
+
+Lemma meta_nl_free_wf f p : meta_nl_free f p = true -> wf_meta f p.
+Proof.
+  destruct f; cbn [meta_nl_free wf_meta]; intro H; try exact I.
+  - apply andb_true_iff in H. destruct H as [H H3]. apply andb_true_iff in H. destruct H as [H1 H2].
+    repeat split; apply no_nl_forallb; assumption.
+  - apply andb_true_iff in H. destruct H as [H H4]. apply andb_true_iff in H. destruct H as [H H3].
+    apply andb_true_iff in H. destruct H as [H1 H2].
+    repeat split; try (apply no_nl_forallb; assumption). apply names_ok_b, H4.
+  - apply andb_true_iff in H. destruct H as [H H3]. apply andb_true_iff in H. destruct H as [H1 H2].
+    repeat split; apply no_nl_forallb; assumption.
+Qed.
+
+Lemma export_import_outside_known_proof f p : bytes_pal p -> ~ KnownC16_1 f p -> load f (export f p) = Some (colours p).
+Proof.
+  intros Hb Hk. apply export_import_proof; [exact Hb|]. apply meta_nl_free_wf. unfold KnownC16_1 in Hk.
+  destruct (meta_nl_free f p); [reflexivity|]. exfalso. apply Hk. reflexivity.
+Qed.
+
+(* title "x\n1 2 3 y", one colour (9,9,9): the GPL file reads back as two colours *)
+Definition known_1_pal : palette := mkPal [120; 10; 49; 32; 50; 32; 51; 32; 121] [] [] [unnamed (9, 9, 9)].
+
+Lemma known_1_witness_proof :
+  bytes_pal known_1_pal /\ KnownC16_1 Gpl known_1_pal /\
+  load Gpl (export Gpl known_1_pal) = Some [(1, 2, 3); (9, 9, 9)] /\ colours known_1_pal = [(9, 9, 9)].
+Proof. split; [repeat constructor|]. split; [reflexivity|]. split; vm_compute; reflexivity. Qed.
+
+(* ================================================================================================ *)
 (* the defect that was fixed in the repository: GPL_COLOR_REGEX used to end in \s+(.+)                *)
 (* (historical matcher, not tied to the current source; kept so that the refutation stays checked)    *)
 
